@@ -64,6 +64,10 @@ CHECKS = {
   "text": "Seeded search over chains of 1-4 map / flat_map steps in executor form and f_* form x input outcomes (value, exception; already done or completed by another thread) x scripted fn / error_fn behaviours (return, raise new, re-raise same, return None, return a future that is done / failed / cancelled / pending and completed by a third thread, return a non-future, omitted) x an output cancel racing the input x schedules. Oracles: sequential reference outcome with exception identity and original traceback frames, TypeError for non-futures, fn / error_fn called at most once and only for their case, identity when omitted, and the composed function evaluated in the same run (composition law).",
   "note": "User functions contain explicit pre-emption points; the input-space part of the property (all values) is sampled, not enumerated.",
   "design": "10 (C13)"},
+ "C14": {
+  "text": "Seeded search over f_or / f_and with 1-5 inputs (plain, library, f_nocancel-wrapped, duplicates; some already finished at construction) x outcome assignments (truthy / falsy objects of several types, exception, cancellation, never) x 1-3 completer threads x an output cancel x schedules. Oracle: completions are intervals in the simulator's event sequence; every total order consistent with real-time precedence is enumerated (n <= 5) and the output must equal the fold of one of them, by object identity; pending losers receive cancel(), f_nocancel shields hold, a single input is returned as is, completing an input never raises out of the combinator's callback.",
+  "note": "Inputs finished before the combinator was built are mutually unordered (the library observes them in argument order).",
+  "design": "10 (C14)"},
 }
 def main():
     checks = []
